@@ -117,3 +117,15 @@ Proof.
     + intros G x Hx. inversion G as [| | | | |? G']; subst. rewrite Forall_forall in H, G'.
       apply (H x Hx). now apply G'.
 Qed.
+
+(* ---- the ranking of the types: null < false < true < numbers < strings < arrays < objects ---- *)
+Theorem type_order a b : (type_index a < type_index b)%Z -> compare a b = Lt.
+Proof.
+  destruct a as [|[]| | | |], b as [|[]| | | |]; cbn [type_index]; intros H; try lia; reflexivity.
+Qed.
+
+Lemma type_index_table :
+  type_index VNull = 0%Z /\ type_index (VBool false) = 1%Z /\ type_index (VBool true) = 2%Z /\
+  (forall n, type_index (VNum n) = 3%Z) /\ (forall s, type_index (VStr s) = 4%Z) /\
+  (forall l, type_index (VArr l) = 5%Z) /\ (forall m, type_index (VObj m) = 6%Z).
+Proof. repeat split. Qed.
